@@ -333,35 +333,39 @@ class WARCRecorder(object):
             before_offset = 0
 
         journal_filename = self._warc_filename + '-wpullinc'
-        rollback_failed = False
+        # The journal may only go once the archive is known to be intact:
+        # after a complete append or a successful roll back. Until then
+        # (also when something other than an I/O error interrupts the
+        # append) it is the only record of where the file was intact.
+        archive_intact = True
 
         try:
             with open(journal_filename, 'w') as file:
                 file.write('wpull-journal-version:1\n')
                 file.write('offset:{}\n'.format(before_offset))
 
+            archive_intact = False
+
             with open_func(self._warc_filename, mode='ab') as out_file:
                 for data in record:
                     out_file.write(data)
+
+            archive_intact = True
         except (OSError, IOError) as error:
             _logger.info(
                 _('Rolling back file {filename} to length {length}.'),
                 filename=self._warc_filename, length=before_offset
             )
             if os.path.exists(self._warc_filename):
-                # If the roll back fails as well, the journal is the only
-                # record of where the file was intact: keep it.
-                rollback_failed = True
-
                 # Not 'wb': that would discard the earlier records.
                 with open(self._warc_filename, mode='r+b') as out_file:
                     out_file.truncate(before_offset)
 
-                rollback_failed = False
+            archive_intact = True
 
             raise error
         finally:
-            if not rollback_failed and os.path.exists(journal_filename):
+            if archive_intact and os.path.exists(journal_filename):
                 os.remove(journal_filename)
 
         after_offset = os.path.getsize(self._warc_filename)
